@@ -1168,6 +1168,15 @@ def drv_grad_api(doc, args, inst):
         ref = [x.cores[k].grad for k in (idx if idx is not None else range(3))]
         if len(g) != len(ref) or any(a is None or a.shape != b.shape or not tn.equal(a, b) for a, b in zip(g, ref)):
             msgs.append('grad(val, x, %s) does not return the gradients of the requested cores in the requested order' % idx)
+    elif case in ('grad_of_constant', 'grad_list_of_constant'):
+        tt.grad.watch(x)
+        v0 = (x * 0).sum()
+        try:
+            g = tt.grad.grad(v0, x) if case == 'grad_of_constant' else tt.grad.grad_list(v0, [x])
+        except Exception as e:
+            return ['grad of (x*0).sum() raises %s: %s (the dense derivative is zero)' % (type(e).__name__, str(e)[:120])]
+        if len(g) != 3 or any(a is None or a.shape != c.shape or float(a.abs().max()) != 0.0 for a, c in zip(g, x.cores)):
+            msgs.append('grad of a value that does not depend on the cores is not a list of zero tensors with the shapes of the cores')
     elif case in ('grad_twice', 'grad_list_twice'):
         tt.grad.watch(x)
         call = (lambda v: tt.grad.grad(v, x)) if case == 'grad_twice' else (lambda v: tt.grad.grad_list(v, [x]))
